@@ -10,9 +10,11 @@ import (
 	"strings"
 	"time"
 
+	cmttypes "github.com/cometbft/cometbft/types"
 	"github.com/ethereum/go-ethereum/common"
 	"github.com/ethereum/go-ethereum/core/types/goattypes"
 	bitcointypes "github.com/goatnetwork/goat/x/bitcoin/types"
+	lockingtypes "github.com/goatnetwork/goat/x/locking/types"
 	relayertypes "github.com/goatnetwork/goat/x/relayer/types"
 
 	"verif/harness/vc"
@@ -49,6 +51,25 @@ func c07History(c *vc.Ctx, idx int) {
 	cfg := lockCfg{Label: "c07", NVals: 3 + idx%3, MaxVals: 4, Blocks: c.Pick(36, 110), Protect0: true, Adversarial: true, JumpTime: idx%2 == 1,
 		W:         lockWeights{Create: 15, Lock: 50, Unlock: 35, Claim: 15, Grant: 10, Weight: 12, Threshold: 10, Absent: 20, Evidence: 6, DustLock: 10, BigUnlock: 15},
 		NRelayers: 4, Relayer: func(g *relayertypes.GenesisState) { g.Params.ElectingPeriod = 20 * time.Second }}
+	if idx%4 == 3 {
+		// a history on the machine's own clock, as on a live network: block times are the wall clock at proposal time and
+		// every period (unlock, exit, jail, election, evidence age) lasts a few block intervals, i.e. 150-600 ms. The
+		// replicas run seconds later, so a comparison against the node's clock instead of the block time comes out
+		// differently there whenever the primary met it before the period had elapsed.
+		cfg.RealTime, cfg.Step, cfg.JumpTime, cfg.EvidenceAges = true, 30*time.Millisecond, false, true
+		cfg.W.Evidence, cfg.W.Absent = 14, 30
+		cfg.Params = func(p *lockingtypes.Params) {
+			p.UnlockDuration, p.ExitingDuration, p.DowntimeJailDuration = 200*time.Millisecond, 400*time.Millisecond, 150*time.Millisecond
+			p.SignedBlocksWindow, p.MaxMissedPerWindow = 6, 2
+		}
+		cfg.Relayer = func(g *relayertypes.GenesisState) {
+			g.Params.ElectingPeriod, g.Params.AcceptProposerTimeout = 600*time.Millisecond, 250*time.Millisecond
+		}
+		cfg.Cons = func(cp *cmttypes.ConsensusParams) {
+			cp.Evidence.MaxAgeNumBlocks, cp.Evidence.MaxAgeDuration = 3, 400*time.Millisecond
+		}
+		c.Count("histories_on_the_wall_clock", 1)
+	}
 	h, err := newLockHist(c, cfg, idx)
 	if err != nil {
 		c.Inconclusive("setup: %v", err)
@@ -273,8 +294,8 @@ func init() {
 		ID: "C07", Title: "State transition is deterministic across replicas, re-execution and restart", Level: "exploration",
 		Rule: "one case = one adversarial history (36/110 blocks: random locking requests incl. unknown validators/tokens, every 4th block a lock batch over 3..6 validators with one failing entry in shuffled order, every 5th block valid/invalid/malformed relayer messages incl. a deposit batch with four headers and items that are wrong in different ways, evidence, churn) recorded once on a primary and re-executed by replicas: " +
 			"R1 fresh node in the same process, R2 another OS process with GOMAXPROCS=1, R3 another process built with the race detector at GOMAXPROCS=16, R4 a goleveldb node closed and reopened before every block, R5 every block finalised, crashed before Commit, reopened and finalised again (blocks driving the map-ordered loops: 16 such rounds); " +
-			"compared per height: app hash, every tx's code/codespace/data/gas wanted/gas used, validator updates as a set, engine calls (method + arguments). Replicas start >= 1.1 s after the primary. Non-trivial = a block with a failing transaction, a hot lock batch or >= 2 validators leaving; distinct = (failing txs, hot, leaving, txs).",
-		Assume: []string{"dependence on clock fields coarser than a second cannot be provoked (no clock virtualisation for Go binaries here)", "map-order dependence is exposed only with the probability Go's per-loop randomisation gives: >= 17 executions of every hot block"},
+			"compared per height: app hash, every tx's code/codespace/data/gas wanted/gas used, validator updates as a set, engine calls (method + arguments). Replicas start >= 1.1 s after the primary; every fourth history runs on the machine's clock (block time = wall clock at proposal, unlock/exit/jail/election/evidence periods of 150-600 ms). Non-trivial = a block with a failing transaction, a hot lock batch or >= 2 validators leaving; distinct = (failing txs, hot, leaving, txs).",
+		Assume: []string{"no clock virtualisation for Go binaries here: dependence on the node's clock is provoked by running every fourth history on the wall clock with periods of a few hundred milliseconds and the replicas seconds later; a dependence on clock fields coarser than that delay is out of reach", "map-order dependence is exposed only with the probability Go's per-loop randomisation gives: >= 17 executions of every hot block"},
 		Cases:  func(tier string) int { return map[string]int{"quick": 8, "thorough": 80}[tier] },
 		Run:    func(c *vc.Ctx, i int) { c07History(c, i) },
 	})
